@@ -12,7 +12,8 @@ import overlay, kanirun
 from props import PROPS
 
 VERIF = overlay.VERIF
-OUT = os.environ.get("VERIF_OUT", VERIF)  # where evidence/ and replays/ are written (seed runs redirect it)
+OUT = os.environ.get("VERIF_OUT") or (VERIF if not os.environ.get("VERIF_ONLY") else "/tmp/verif-partial")
+# where evidence/ and replays/ are written: seed runs redirect it; partial runs (VERIF_ONLY) never overwrite the committed evidence
 
 
 def load_known():
